@@ -450,20 +450,21 @@ def restart(dirpath, pairing_file=PAIRING_FILE, want_db=True, enabled=ALL_TRANSP
 def restart_graph(dirpath, pairing_file=PAIRING_FILE, want_db=True, enabled=ALL_TRANSPORTS):
     def go():
         res = {"exc": None, "stage": None, "storage": None, "pair": None, "db": None}
+        stage = "cache"
         try:
             cache, c = new_object_graph(dirpath, pairing_file, enabled)
-        except Exception as ex:  # noqa: BLE001
-            res["exc"], res["stage"] = f"{type(ex).__name__}: {ex}".replace(dirpath, "<dir>")[:300], "cache"
-            return res, None
-        res["storage"] = canon(cache.storage_data)
-        try:
+            res["storage"] = canon(cache.storage_data)
+            stage = "load_data"
             c.load_data(os.path.join(dirpath, pairing_file))
-        except Exception as ex:  # noqa: BLE001
-            res["exc"], res["stage"] = f"{type(ex).__name__}: {ex}".replace(dirpath, "<dir>")[:300], "load_data"
+            stage = "reading the loaded pairings"
+            res["pair"] = proj_pairings(c)
+            if want_db:
+                res["db"] = proj_accessories(c)
+        except BaseException as ex:  # noqa: BLE001 - whatever the tree raises is the outcome of this start-up
+            if _control(ex):
+                raise
+            res["exc"], res["stage"] = _exc_text(ex, dirpath), stage
             return res, None
-        res["pair"] = proj_pairings(c)
-        if want_db:
-            res["db"] = proj_accessories(c)
         return res, (cache, c)
     return in_loop(go)
 
@@ -516,6 +517,16 @@ class _StepFailed(Exception):
     pass
 
 
+def _control(ex):
+    """exceptions that are never an outcome of the code under test"""
+    return isinstance(ex, (KeyboardInterrupt, MachineryError, _StepFailed))
+
+
+def _exc_text(ex, dirpath=None):
+    t = f"{type(ex).__name__}: {ex}"
+    return (t.replace(dirpath, "<dir>") if dirpath else t)[:300]
+
+
 def run_life(dirpath, steps, pairing_file=PAIRING_FILE, fixtures_dir=None):
     """Returns dict(start=restart result, events, saves={kind: [snapshot per save]}, before=(pair, db), exc)."""
     from aiohomekit.model import AccessoriesState
@@ -534,11 +545,10 @@ def run_life(dirpath, steps, pairing_file=PAIRING_FILE, fixtures_dir=None):
         rec.mark("begin", "cache", k)
         try:
             fn()
-        except MachineryError:
-            raise
-        except Exception as ex:  # noqa: BLE001 - reported by the check as a failed save
-            life["exc"] = {"step": cur_step[0], "exc": f"{type(ex).__name__}: {ex}".replace(dirpath, "<dir>")[:300],
-                           "kind": "cache"}
+        except BaseException as ex:  # noqa: BLE001 - an outcome of the tree under test, reported by the check
+            if _control(ex):
+                raise
+            life["exc"] = {"step": cur_step[0], "exc": _exc_text(ex, dirpath), "kind": "cache"}
             raise _StepFailed() from ex
         rec.mark("end", "cache", k)
         life["saves"]["cache"].append({"storage": canon(cache.storage_data),
@@ -546,69 +556,83 @@ def run_life(dirpath, steps, pairing_file=PAIRING_FILE, fixtures_dir=None):
 
     cur_step = [None]
 
+    def step(st):
+        op = st[0]
+        if op == "add":
+            c.load_pairing(st[1], json.loads(json.dumps(st[2])))
+        elif op == "drop":
+            # what Controller.remove_pairing does locally (the accessory side is not there)
+            p = c.aliases.pop(st[1])
+            p.controller.aliases.pop(st[1], None)
+            c.pairings.pop(p.id.lower(), None)
+            c.pairings.pop(p.id, None)
+            p.controller.pairings.pop(p.id.lower(), None)
+            p.controller.pairings.pop(p.id, None)
+            cache_save(lambda p=p: cache.async_delete_map(p.id))
+        elif op == "restore":
+            raw = st[2]
+            if isinstance(raw, str):
+                raw = json.load(open(os.path.join(fixtures_dir, raw)))
+            p = c.aliases[st[1]]
+            bk = bytes.fromhex(st[4]) if st[4] is not None else None
+            cache_save(lambda: p.restore_accessories_state(json.loads(json.dumps(raw)), st[3], bk, st[5]))
+        elif op == "model":
+            p = c.aliases[st[1]]
+            accs = _build_ble_model(st[2])
+            bk = bytes.fromhex(st[4]) if st[4] is not None else None
+            p._accessories_state = AccessoriesState(accs, st[3], bk, st[5])
+            cache_save(p._update_accessories_state_cache)
+        elif op == "changes":
+            p = c.aliases[st[1]]
+            if p.accessories is None:
+                return
+            ch = {(a, i): {"value": v} for a, i, v in st[2]
+                  if p.accessories.has_aid(a) and p.accessories.aid(a).characteristics.iid(i)}
+            p.accessories.process_changes(ch)
+            if st[3] is not None and p.accessories_state is not None:
+                p.accessories_state.state_num = st[3]
+            cache_save(p._update_accessories_state_cache)
+        elif op == "save":
+            k = len(life["saves"]["pairings"]) + 1
+            snap = {"doc": canon({a: dict(p.pairing_data) for a, p in c.aliases.items()}),
+                    "proj": proj_pairings(c)}
+            rec.mark("begin", "pairings", k)
+            try:
+                c.save_data(ppath)
+            except BaseException as ex:  # noqa: BLE001
+                if _control(ex):
+                    raise
+                life["exc"] = {"step": st, "exc": _exc_text(ex, dirpath), "kind": "pairings"}
+                raise _StepFailed() from ex
+            rec.mark("end", "pairings", k)
+            life["saves"]["pairings"].append(snap)
+        else:
+            raise MachineryError(f"unknown step {op}")
+
     def go():
         with rec:
             for st in steps:
-                op = st[0]
                 cur_step[0] = st
-                if op == "add":
-                    c.load_pairing(st[1], json.loads(json.dumps(st[2])))
-                elif op == "drop":
-                    # what Controller.remove_pairing does locally (the accessory side is not there)
-                    p = c.aliases.pop(st[1])
-                    p.controller.aliases.pop(st[1], None)
-                    c.pairings.pop(p.id.lower(), None)
-                    c.pairings.pop(p.id, None)
-                    p.controller.pairings.pop(p.id.lower(), None)
-                    p.controller.pairings.pop(p.id, None)
-                    cache_save(lambda p=p: cache.async_delete_map(p.id))
-                elif op == "restore":
-                    raw = st[2]
-                    if isinstance(raw, str):
-                        raw = json.load(open(os.path.join(fixtures_dir, raw)))
-                    p = c.aliases[st[1]]
-                    bk = bytes.fromhex(st[4]) if st[4] is not None else None
-                    cache_save(lambda: p.restore_accessories_state(json.loads(json.dumps(raw)), st[3], bk, st[5]))
-                elif op == "model":
-                    p = c.aliases[st[1]]
-                    accs = _build_ble_model(st[2])
-                    bk = bytes.fromhex(st[4]) if st[4] is not None else None
-                    p._accessories_state = AccessoriesState(accs, st[3], bk, st[5])
-                    cache_save(p._update_accessories_state_cache)
-                elif op == "changes":
-                    p = c.aliases[st[1]]
-                    if p.accessories is None:
-                        continue
-                    ch = {(a, i): {"value": v} for a, i, v in st[2]
-                          if p.accessories.has_aid(a) and p.accessories.aid(a).characteristics.iid(i)}
-                    p.accessories.process_changes(ch)
-                    if st[3] is not None and p.accessories_state is not None:
-                        p.accessories_state.state_num = st[3]
-                    cache_save(p._update_accessories_state_cache)
-                elif op == "save":
-                    k = len(life["saves"]["pairings"]) + 1
-                    snap = {"doc": canon({a: dict(p.pairing_data) for a, p in c.aliases.items()}),
-                            "proj": proj_pairings(c)}
-                    rec.mark("begin", "pairings", k)
-                    try:
-                        c.save_data(ppath)
-                    except Exception as ex:  # noqa: BLE001 - reported by the check as a failed save
-                        life["exc"] = {"step": st, "exc": f"{type(ex).__name__}: {ex}".replace(dirpath, "<dir>")[:300],
-                                       "kind": "pairings"}
-                        return
-                    rec.mark("end", "pairings", k)
-                    life["saves"]["pairings"].append(snap)
-                else:
-                    raise MachineryError(f"unknown step {op}")
-        life["before"] = (proj_pairings(c), proj_accessories(c))
+                try:
+                    step(st)
+                except BaseException as ex:  # noqa: BLE001 - the tree under test raised while executing a step
+                    if _control(ex):
+                        raise
+                    if isinstance(ex, AttributeError) and st[0] in ("model", "changes", "drop"):
+                        # these steps imitate library-internal code paths by name
+                        raise MachineryError(f"driver step {st[0]} relies on an attribute the tree does not have: {ex}") from ex
+                    life["exc"] = {"step": st, "exc": _exc_text(ex, dirpath), "kind": "step"}
+                    raise _StepFailed() from ex
+            try:
+                life["before"] = (proj_pairings(c), proj_accessories(c))
+            except BaseException as ex:  # noqa: BLE001
+                if _control(ex):
+                    raise
+                life["exc"] = {"step": ["projection"], "exc": _exc_text(ex, dirpath), "kind": "step"}
     try:
         in_loop(go)
-    except MachineryError:
-        raise
     except _StepFailed:
         pass
-    except AttributeError as ex:
-        raise MachineryError(f"driver step relies on an attribute the tree does not have: {ex}") from ex
     return life
 
 
@@ -1077,11 +1101,37 @@ def _file_order(bs):
     return out
 
 
+def expected_entry_lines(alias, pd):
+    """the lines proj_pairings must show for a pairing-file entry, read off the file by the harness:
+    every field of the entry, unchanged (a loader may add defaults, e.g. Connection for legacy entries)"""
+    return flat(f"pairing/{json.dumps(alias)}/data", canon(dict(pd)), [])
+
+
+def entry_problems(entries, must, got_lines, ref_by=None):
+    """entries: [(alias, kind, pairing data)], must: 1-based indices that have to be loaded"""
+    got = _by_alias(got_lines)
+    bad = []
+    for j in must:
+        alias, kind, pd = entries[j - 1]
+        what = f"entry {j} ({'legacy IP entry without Connection field' if kind == 'IP0' else kind}, alias {alias!r})"
+        if alias not in got:
+            bad.append(f"{what} was not loaded")
+            continue
+        missing = [ln for ln in expected_entry_lines(alias, pd) if ln not in got[alias]]
+        if missing:
+            bad.append(f"{what} lost or changed fields: {missing[:4]}")
+        elif ref_by is not None and alias in ref_by and got[alias] != ref_by[alias]:
+            bad.append(f"{what} differs from the same entry loaded with every transport: "
+                       f"{sorted(set(got[alias]) ^ set(ref_by[alias]))[:4]}")
+    return bad
+
+
 def transport_cases(job):
     """worker: one file order (list of entry kinds) and the cases (enabled set, must-load indices) TLC exported
-    for it.  The file is produced by the real save_data of a process that has every transport; then, for every
-    enabled set, a fresh process with exactly those transports starts from it, saves, and the next one starts.
-    Returns [(enabled, phase, problem)] - problems are observations, the caller judges."""
+    for it.  The file is produced by the real save_data of a process that has every transport (by an independent
+    writer where that cannot give the order / the legacy shape under test); then, for every enabled set, a fresh
+    process with exactly those transports starts from it, saves, and the next one starts.  Whatever the tree
+    raises is an outcome.  Returns [(enabled, phase, problem, file bytes)] - the caller judges."""
     import logging
     import random
     import tempfile
@@ -1101,25 +1151,28 @@ def transport_cases(job):
                 pd["Connection"] = "IP"
             entries.append((alias, kind, pd))
         ppath = os.path.join(d, PAIRING_FILE)
+        want = [(a, k) for a, k, _ in entries]
 
         def build():
             _cache, c = new_object_graph(d)
             for alias, _kind, pd in entries:
                 c.load_pairing(alias, json.loads(json.dumps(pd)))
             c.save_data(ppath)
-        in_loop(build)
-        want = [(a, k) for a, k, _ in entries]
-        if _file_order(open(ppath, "rb").read()) != want:
-            # the tree orders entries differently: produce the order under test with an independent writer
+        built = None
+        try:
+            in_loop(build)
+            built = _file_order(open(ppath, "rb").read()) == want
+        except BaseException as ex:  # noqa: BLE001 - the file under test is then written independently
+            if _control(ex):
+                raise
+        if not built:
             with open(ppath, "w", encoding="utf-8") as f:
                 json.dump({a: pd for a, _k, pd in entries}, f, ensure_ascii=False, indent=2)
             if _file_order(open(ppath, "rb").read()) != want:
                 raise MachineryError("cannot produce the pairing file order under test")
         original = open(ppath, "rb").read()
         ref = restart(d, want_db=False)
-        if ref["exc"] is not None:
-            return [(list(ALL_TRANSPORTS), "reference", f"start-up with every transport fails: {ref['exc']}", original)]
-        ref_by = _by_alias(ref["pair"])
+        ref_by = _by_alias(ref["pair"]) if ref["exc"] is None else None
         for case in cases:
             en = tuple(case["enabled"])
             with open(ppath, "wb") as f:
@@ -1129,24 +1182,17 @@ def transport_cases(job):
                 if res["exc"] is not None:
                     out.append((list(en), phase, f"start-up fails ({res['stage']}: {res['exc']})", original))
                     break
-                got = _by_alias(res["pair"])
-                bad = []
-                for j in case["must"]:
-                    alias = entries[j - 1][0]
-                    if alias not in got:
-                        bad.append(f"entry {j} ({entries[j - 1][1]}, alias {alias!r}) was not loaded")
-                    elif got[alias] != ref_by.get(alias):
-                        diff = sorted(set(got[alias]) ^ set(ref_by.get(alias, [])))[:4]
-                        bad.append(f"entry {j} ({entries[j - 1][1]}, alias {alias!r}) differs: {diff}")
+                bad = entry_problems(entries, case["must"], res["pair"], ref_by)
                 if bad:
                     out.append((list(en), phase, "; ".join(bad), original))
                     break
                 if phase == "restart":
                     try:
                         in_loop(graph[1].save_data, ppath)
-                    except Exception as ex:  # noqa: BLE001
-                        out.append((list(en), "save", f"save_data raised {type(ex).__name__}: {ex}".replace(d, "<dir>"),
-                                    original))
+                    except BaseException as ex:  # noqa: BLE001
+                        if _control(ex):
+                            raise
+                        out.append((list(en), "save", f"save_data raised {_exc_text(ex, d)}", original))
                         break
     finally:
         logging.disable(logging.NOTSET)
